@@ -69,7 +69,7 @@ def fragile_cases(draw):
     from invocation k on: a completed operation whose payload cannot be read back must fail, never run again."""
     import copy
 
-    prog = copy.deepcopy(draw(G.programs(max_stmts=5, features=("step", "wait", "child", "wfcond", "parallel", "map", "try"))))
+    prog = copy.deepcopy(draw(G.programs(max_stmts=5, features=("step", "wait", "child", "wfcond", "parallel", "map", "sleep"))))
     _mark_fragile(prog["body"], draw)
     if draw(st.booleans()):
         prog["body"].append({"op": "wait", "secs": 1})
